@@ -218,6 +218,19 @@ def check_structured(case) -> Outcome:
         if not (got is x or got == x):
             out.fail("map-context-path", f"{spec}: path {ctx} -> {got!r} but leaf {x!r}", nested_tuple=nt)
             break
+    # _map(recurse=False): "only map one level deep" - nested Structured nodes (under a key or inside a tuple)
+    # are handed to the function whole; tuples are still traversed
+    def shallow(v):
+        if is_s(v):
+            return ("m", v)
+        if isinstance(v, tuple):
+            return tuple(shallow(x) for x in v)
+        return ("m", v)
+
+    seen_nodes = []
+    mapped0 = s._map(lambda x: (seen_nodes.append(x), ("m", x))[1], recurse=False)
+    if to_model(mapped0) != ("S", {k: shallow(v) for k, v in m[1].items()}):
+        out.fail("map-one-level", f"{spec}: {to_model(mapped0)}", nested_tuple=nt)
     # simplify
     s1 = s._simplify()
     s2 = s1._simplify() if isinstance(s1, Structured) else s1
@@ -370,6 +383,7 @@ def check_layered(case) -> Outcome:
     lm = LayeredMapping(*real_layers)
     mm = M(model_layers)
     extra_supplied, extra_pristine = [], []
+    ancestors = []  # mappings a copy was derived from: they stay live layers of the derived mapping
     writes = 0
     shared = len(supplied) >= 2 and any(set(a) & set(b) for i, a in enumerate(supplied) for b in supplied[i + 1 :])
 
@@ -397,6 +411,10 @@ def check_layered(case) -> Outcome:
                     out.fail("missing-key", f"after {step}: lm[{k}] did not raise", op=step[0])
                 except KeyError:
                     pass
+        for p_real, p_model in ancestors:
+            if dict(p_real) != p_model.merged():
+                out.fail("ancestor-view", f"after {step}: ancestor {dict(p_real)} vs model {p_model.merged()}", op=step[0])
+                return False
         if supplied != pristine or extra_supplied != extra_pristine:
             out.fail("supplied-layer-mutated", f"after {step}: {supplied} vs {pristine}; {extra_supplied} vs {extra_pristine}", op=step[0])
             return False
@@ -448,8 +466,26 @@ def check_layered(case) -> Outcome:
                 snapshot = dict(old_real)
                 lm = res
                 mm = M([newl, old_model] if prepend else [old_model, newl])
+                ancestors.append((old_real, old_model))
                 if dict(old_real) != snapshot:
                     out.fail("with-layers-copy-mutates-original", f"{step}", op=op)
+        elif op == "pset":
+            # write through the mapping this one was derived from: it is a live layer
+            if not ancestors:
+                continue
+            p_real, p_model = ancestors[step[3] % len(ancestors)]
+            p_real[step[1]] = step[2]
+            p_model.private[step[1]] = step[2]
+        elif op == "pwith":
+            # the parent gains a layer in place after the copy was derived
+            if not ancestors:
+                continue
+            p_real, p_model = ancestors[step[3] % len(ancestors)]
+            newl = dict(step[1])
+            extra_supplied.append(newl)
+            extra_pristine.append(copy.deepcopy(newl))
+            p_real.with_layers(newl, prepend=step[2], inplace=True)
+            p_model.layers = [newl, *p_model.layers] if step[2] else [*p_model.layers, newl]
         elif op == "withnone":
             res = lm.with_layers(None, prepend=step[1], inplace=step[2])
             if res is not lm:
@@ -470,6 +506,8 @@ def gen_layered():
         st.tuples(st.just("setlayer"), st.sampled_from(LKEYS)),
         st.tuples(st.just("with"), layer, st.booleans(), st.booleans()),
         st.tuples(st.just("withnone"), st.booleans(), st.booleans()),
+        st.tuples(st.just("pset"), st.sampled_from(LKEYS), st.integers(200, 299), st.integers(0, 3)),
+        st.tuples(st.just("pwith"), layer, st.booleans(), st.integers(0, 3)),
     )
     return st.fixed_dictionaries(
         {
